@@ -1,2 +1,3 @@
 //! Generators: choice sequence -> structured specs.
 pub mod headers;
+pub mod modular;
